@@ -16,12 +16,14 @@ import (
 	"strings"
 	"testing"
 
+	cfg "github.com/lianxiangcloud/linkchain/config"
 	"github.com/lianxiangcloud/linkchain/consensus"
 	"github.com/lianxiangcloud/linkchain/libs/common"
 	"github.com/lianxiangcloud/linkchain/libs/crypto"
 	lktypes "github.com/lianxiangcloud/linkchain/libs/cryptonote/types"
 	dbm "github.com/lianxiangcloud/linkchain/libs/db"
 	"github.com/lianxiangcloud/linkchain/libs/log"
+	realnode "github.com/lianxiangcloud/linkchain/node"
 	"github.com/lianxiangcloud/linkchain/types"
 	"pgregory.net/rapid"
 
@@ -476,6 +478,7 @@ func runCrash(t *rapid.T) {
 		}
 	}
 
+	realBudget.reset()
 	for _, pt := range points {
 		vstat.LabelN("crash_points_restarted", 1)
 		img := base.Clone()
@@ -552,6 +555,9 @@ type verdict struct{ key, detail string }
 func restartAndCheck(s *chainsim.Sim, img *world.DBSet, val *consim.ValKey, power func(uint64) int64, facts []*blockFacts, acked, H uint64) *verdict {
 	var w *world.World
 	var err error
+	// the same image once more, untouched, for the real node.NewNode at the end
+	img2 := img.Clone()
+	defer img2.Remove()
 	if rec := try(func() { w, err = world.Open(s.Spec, img) }); rec != nil {
 		return &verdict{"restart-fails:application-panics", fmt.Sprintf("opening the application on the crash image panics: %v", rec)}
 	}
@@ -682,6 +688,19 @@ func restartAndCheck(s *chainsim.Sim, img *world.DBSet, val *consim.ValKey, powe
 	if st, _ := consensus.LoadStatus(img.Status); st.LastBlockHeight != h {
 		return &verdict{"restart-inconsistent:status-after-rebuild", fmt.Sprintf("after the rebuild the status is at %d, the application at %d", st.LastBlockHeight, h)}
 	}
+	// the REAL node.NewNode on the same crash image: it must come up, and leave block store, application and consensus
+	// status at the same height, with the same last block, as the transcription above (what it reads the next
+	// validators from - the elected candidates instead of the harness's script - may differ, so those fields are
+	// left out of the comparison)
+	// (node.NewNode leaves goroutines and their caches behind that nothing can stop from outside, so it is run on a
+	// bounded number of images per history: those where the status lagged - the reconciliation proper - first)
+	lagged := status.LastBlockHeight+1 == h
+	if realBudget.take(lagged) {
+		if v := realNewNodeAgrees(s, img2, img.Status, val, h, facts[h].hash); v != nil {
+			return v
+		}
+		vstat.Label(fmt.Sprintf("real_newnode_status_lagged_%v", lagged))
+	}
 	// the validator and parameter records the node needs for its next height are there
 	for _, k := range []uint64{h, h + 1} {
 		if k == 0 {
@@ -705,6 +724,96 @@ func restartAndCheck(s *chainsim.Sim, img *world.DBSet, val *consim.ValKey, powe
 		return &verdict{"restart-inconsistent:status-after-next-block", fmt.Sprintf("status at %d after committing block %d", st.LastBlockHeight, h+1)}
 	}
 	vstat.Label(fmt.Sprintf("restart_height_%s", map[bool]string{true: "includes_block", false: "excludes_block"}[h == H]))
+	return nil
+}
+
+// realBudget bounds the node.NewNode calls of one history (reset by runCrash).
+var realBudget budget
+
+type budget struct{ lag, noLag, process int }
+
+func (b *budget) reset() { b.lag, b.noLag = 2, 1 }
+func (b *budget) take(lagged bool) bool {
+	c := &b.noLag
+	if lagged {
+		c = &b.lag
+	}
+	// every call leaks some 20 MB (two 100 000-entry transaction heaps kept alive by their goroutines): a process
+	// stops after 30 of them; a replay of a saved case starts a fresh process and so always has the budget
+	if *c == 0 || b.process >= 30 {
+		return false
+	}
+	*c--
+	b.process++
+	return true
+}
+
+// realNewNodeAgrees calls node.NewNode (nothing is started: no socket is bound) on the databases of a crash image.
+func realNewNodeAgrees(s *chainsim.Sim, img *world.DBSet, transcribed dbm.DB, val *consim.ValKey, h uint64, hash common.Hash) *verdict {
+	c := cfg.DefaultConfig()
+	c.SetRoot(img.Dir)
+	c.IsTestMode = true
+	c.FullNode = s.Spec.IsTrie
+	c.BootNodeSvr.Addrs = nil
+	c.ProfListenAddress = ""
+	c.Mempool.Broadcast = false
+	c.Mempool.BroadcastChanSize = 16
+	c.Mempool.CacheSize = 1000
+	c.Mempool.FutureSize = 1000
+	prov := func(ctx *realnode.DBContext) (dbm.DB, error) {
+		switch ctx.ID {
+		case "blockstore":
+			return img.Block, nil
+		case "balance_record":
+			return img.Balance, nil
+		case "txmgr":
+			return img.Tx, nil
+		case "consensus_state":
+			return img.Status, nil
+		case "state":
+			return img.State, nil
+		case "evidence":
+			return img.Evidence, nil
+		case "utxo":
+			return img.Utxo, nil
+		case "utxo_output":
+			return img.UtxoOut, nil
+		case "utxo_output_token":
+			return img.UtxoTok, nil
+		}
+		return dbm.NewMemDB(), nil
+	}
+	var n *realnode.Node
+	var err error
+	if rec := try(func() {
+		n, err = realnode.NewNode(c, &consim.RecPV{Key: val}, prov, realnode.NopMetricsProvider, log.NewNopLogger())
+	}); rec != nil {
+		return &verdict{"restart-fails:newnode-panics", fmt.Sprintf("node.NewNode panics on the crash image (block store at %d): %v", h, rec)}
+	}
+	if err != nil || n == nil {
+		return &verdict{"restart-fails:newnode-error", fmt.Sprintf("node.NewNode fails on the crash image (block store at %d) although the transcribed start-up succeeds: %v", h, err)}
+	}
+	vstat.Label("real_newnode_started")
+	if got := n.BlockStore().Height(); got != h {
+		return &verdict{"restart-inconsistent:newnode-block-store", fmt.Sprintf("node.NewNode leaves the block store at %d, the image had %d", got, h)}
+	}
+	st, e1 := consensus.LoadStatus(img.Status)
+	ref, e2 := consensus.LoadStatus(transcribed)
+	if e1 != nil || e2 != nil {
+		return &verdict{"restart-fails:status-unreadable", fmt.Sprintf("LoadStatus after node.NewNode: %v %v", e1, e2)}
+	}
+	if st.LastBlockHeight != h {
+		return &verdict{"restart-inconsistent:newnode-status-height", fmt.Sprintf("after node.NewNode the consensus status is at height %d, block store and application at %d", st.LastBlockHeight, h)}
+	}
+	if h > 0 && st.LastBlockID.Hash != hash {
+		return &verdict{"restart-inconsistent:newnode-status-block", fmt.Sprintf("after node.NewNode the status at height %d names block %s, the committed one is %s", h, st.LastBlockID.Hash.Hex(), hash.Hex())}
+	}
+	if st.ChainID != ref.ChainID || st.LastBlockTotalTx != ref.LastBlockTotalTx || st.LastBlockTime != ref.LastBlockTime || !st.LastBlockID.Equals(ref.LastBlockID) {
+		return &verdict{"restart-inconsistent:newnode-status-differs", fmt.Sprintf("after node.NewNode the status at height %d is (chain %q, total txs %d, time %d, block %v), the transcribed start-up has (%q, %d, %d, %v)", h, st.ChainID, st.LastBlockTotalTx, st.LastBlockTime, st.LastBlockID, ref.ChainID, ref.LastBlockTotalTx, ref.LastBlockTime, ref.LastBlockID)}
+	}
+	if rs := n.ConsensusState().GetRoundState(); rs.Height != h+1 {
+		return &verdict{"restart-inconsistent:newnode-consensus-height", fmt.Sprintf("after node.NewNode on an image at height %d the consensus state works on height %d", h, rs.Height)}
+	}
 	return nil
 }
 
